@@ -354,7 +354,12 @@ class SED(object):
         # plotting code) or a quantity, so compare everything in AU
         sed_apertures = self.apertures.to(u.au).value
         if isinstance(apertures, u.Quantity):
-            apertures = apertures.to(u.au).value
+            # Check the lower bound in the units of the request: a tabulated
+            # aperture given in other units must not be rejected because of
+            # the round-off of the conversion to AU
+            if np.any(apertures < self.apertures.min()):
+                raise Exception("Aperture(s) requested too small")
+            apertures = np.maximum(apertures.to(u.au).value, sed_apertures.min())
 
         # Create interpolating function
         flux_interp = interp1d(sed_apertures, self.flux.swapaxes(0, 1))
